@@ -138,6 +138,15 @@ std::string run(const Scenario &s, CaseInfo &info) {
     }
   }
   if (specs.empty()) specs.push_back(SinkSpec());
+  // keep the cost of a case bounded: every byte that goes through an async pipe with tiny buffers costs a buffer
+  // hand-over (two context switches when the buffer count is at its limit), so text lengths are capped at
+  // 300 x the smallest pipe buffer of the scenario (100 KiB texts through 1-byte buffers took > 60 s under TSan)
+  {
+    size_t min_buf = 1 << 20;
+    for (auto &sp : specs) if (sp.kind == 1 || sp.kind == 2 || sp.kind == 4) min_buf = std::min(min_buf, (size_t)kPipeBuf[sp.buf]);
+    size_t cap = std::max<size_t>(64, min_buf * 300);
+    for (int t = 0; t < kMaxThreads; ++t) for (auto &st : script[t]) if (st.first == 0 && st.second.len > cap) st.second.len = cap;
+  }
   for (int t = 0; t < kMaxThreads; ++t) for (auto &st : script[t]) if (st.first == 0) st.second.seq = ++seqs[t];
 
   // ---- set up
